@@ -14,10 +14,15 @@ class Sim:
         self.maybe_reserved = 0
         self.types = []        # (key, id) of type declarations in insertion order
         self.explicit_ids = set()
+        self.first = 1         # first fresh id (the header bound when continuing a module)
+        self.fn_ids = []       # result id of each function's definition
+        self.names = []        # (target id, name string) of OpName instructions in order
+        self.ret_blocks = {}   # (function, block) -> last instruction is OpReturn / OpReturnValue
 
     def category(self, name):
         if name in ("begin_function", "end_function", "function_parameter", "begin_block", "begin_block_no_label",
-                    "select_function", "select_block", "pop_instruction", "id", "set_version"):
+                    "select_function", "select_block", "pop_instruction", "id", "set_version",
+                    "find_return_block_indices", "select_function_by_name"):
             return name
         op = self.bg.method_opcode(name)
         if op is None:
@@ -41,6 +46,9 @@ class Sim:
         name, args = toks[0], toks[1:]
         if ans == "PANIC":
             return "call `%s` panicked" % call
+        if name == "new_from_module":
+            self.first = int(args[0], 16)
+            return None
         same = None
         if ",same=" in ans:
             ans, _, sm = ans.rpartition(",same=")
@@ -84,6 +92,14 @@ class Sim:
                     want_err = "DetachedBlock"
                 elif int(args[0]) >= len(self.fns[self.sel_fn]):
                     want_err = "BlockNotFound"
+        elif cat == "select_function_by_name":
+            want_by_name = None
+            for tgt, nm in self.names:
+                if nm == args[0] and tgt in self.fn_ids:
+                    want_by_name = self.fn_ids.index(tgt)
+                    break
+            if want_by_name is None:
+                want_err = "FunctionNotFound"
         elif cat == "pop_instruction":
             if not (fo and bo):
                 want_err = "DetachedInstruction"
@@ -133,13 +149,34 @@ class Sim:
             if is_fresh:
                 if val is None:
                     return "`%s` should return a fresh id" % call
-                lo = (self.fresh[-1] + 1) if self.fresh else 1
+                lo = (self.fresh[-1] + 1) if self.fresh else self.first
                 if not (lo <= val <= lo + self.maybe_reserved):
                     return "fresh id %x returned by `%s` is not the next id (expected %x%s)" % (val, call, lo, ("..%x" % (lo + self.maybe_reserved)) if self.maybe_reserved else "")
                 self.maybe_reserved -= (val - lo)
                 self.fresh.append(val)
             # ---- selection effects
+            if name == "name" and len(args) >= 2:
+                self.names.append((int(args[0], 16), args[1]))
+            if cat == "find_return_block_indices":
+                want_l = []
+                if self.sel_fn is not None:
+                    want_l = [str(b) for b in range(len(self.fns[self.sel_fn])) if self.ret_blocks.get((self.sel_fn, b)) is True]
+                unknown = self.sel_fn is not None and any(self.ret_blocks.get((self.sel_fn, b)) == "?" for b in range(len(self.fns[self.sel_fn])))
+                if not unknown and res != "list:" + ".".join(want_l):
+                    return "find_return_block_indices answered %s, the blocks of the selected function ending in a return are %s" % (res, want_l)
+            elif cat == "select_function_by_name":
+                self.sel_fn = want_by_name
+                self.sel_blk = None
+            if cat in ("block", "terminator", "pop_instruction") or (cat in ("var", "line") and fo and bo):
+                # what the selected block ends with after this call (insertions at other points are not tracked: unknown)
+                key = (self.sel_fn, self.sel_blk)
+                pt = [a for a in args if a in ("end", "begin") or a.startswith("fe") or a.startswith("fb")]
+                if cat == "pop_instruction" or (name.startswith("insert_") and pt and pt[0] != "end"):
+                    self.ret_blocks[key] = "?"
+                else:
+                    self.ret_blocks[key] = name.replace("insert_", "") in ("ret", "ret_value")
             if cat == "begin_function":
+                self.fn_ids.append(val)
                 self.fns.append([])
                 self.sel_fn = len(self.fns) - 1
                 self.sel_blk = None if True else self.sel_blk
@@ -179,7 +216,7 @@ class Sim:
     def check_bound(self, module_text):
         h = module_text.split(" ")[0]
         bound = int(h.split(".")[3], 16)
-        lo = (self.fresh[-1] + 1) if self.fresh else 1
+        lo = (self.fresh[-1] + 1) if self.fresh else self.first
         if not (lo <= bound <= lo + self.maybe_reserved):
             return "header bound %x is not the next id to allocate (%x)" % (bound, lo)
         return None
